@@ -8,29 +8,24 @@ import scipy.optimize as sco
 def eps_class(fit, phi, npts, loc=1.0):
     """numerical precision of one coefficient of the unit tangent obtained from the circle fit.
     phi: bulge angle of the arc, npts: stored points, loc: |position| / chord length (coordinate offset amplifies
-    cancellation).  Measured on the unchanged tree (probes p3/p4 of the build round, margins >= 10x):
+    cancellation).  Measured through BigEdge.get_vector_from_vertex on exact arcs (2 x 30000 arcs, phi 1e-12..1.6, 3..18 points,
+    uniform and random spacing, offsets up to 1e6 chords, units 1e-6..1e3; margins >= 10x), on the tree with the repaired circle
+    fit (analytic Jacobian, fix F-DLITE-STALL) and the straightness test at a relative sagitta of 1e-7:
+      straight    two points, or relative sagitta <= 1e-7: the chord direction is used, error <= the bulge angle itself
+                  (up to 2.5e-6 when the only interior points lie near an end)
       taubinSVD   err ~ eps_mach * loc / |phi|                       (algebraic fit, exact up to conditioning)
-      dlite       MINPACK leastsq from the centroid, default ftol/xtol 1.49e-8 (relative to the centre coordinates);
-                  nearly straight interfaces (|phi| < 1e-2) stop early: observed up to 4.3e-3
-      both        |phi| < 1e-7: the fit is degenerate (taubin falls back to dlite): observed up to 2.4e-4"""
+      dlite       MINPACK leastsq from the centroid with the analytic Jacobian: observed <= 1e-9 for loc <= 1e4 and
+                  <= 1.6e-4 for loc ~ 1e6 (xtol 1.49e-8 is relative to the centre coordinates)"""
     if npts == 2 or (phi == 0.0 and loc <= 100):
         # two points, or exactly straight and detected as such by BigEdge.is_straight(): direction of the edge itself
         return 1e-12 * (1 + loc)
     a = abs(phi)
+    # interfaces the code may treat as straight (relative sagitta <= 1e-7 <=> a <= 4e-7 for a point at the apex, up to
+    # a ~ 2.5e-6 for interior points at 5 % of the arc): the error is the bulge angle, plus the rounding of the direction
+    straight = (1.3 * a + 1e-12 * (1 + loc)) if a <= 3e-6 else 0.0
     if fit == "taubinSVD":
-        if a >= 1e-7:
-            return max(1e-12, 5e-14 * (1 + loc) * (1 + 1 / (100 * a)))
-        return 2e-3
-    if a >= 1e-2:
-        if 1.5e-8 * loc > a / 60:
-            # MINPACK's forward-difference step (sqrt(eps_mach) x |centre coordinates|) is comparable with the sagitta of the
-            # arc: the fit can stop at a far-away centre, i.e. the chord direction (probe p21: err/|phi| = 1.0 for
-            # loc >= 1e5 and |phi| < 0.1, <= 2e-4 otherwise)
-            return max(2e-2, 1.2 * a)
-        # the MINPACK stop (ftol/xtol 1.49e-8) leaves an error that grows like 1/phi^2 towards straight interfaces
-        # (thorough sweep: 4.3e-5 at |phi| = 0.0113 with 17 points)
-        return max(1e-5 * (1 + loc / 1e3), 5e-7 / a ** 2)
-    return 2e-2
+        return max(1e-12, 5e-14 * (1 + loc) * (1 + 1 / (100 * max(a, 4e-7))), straight)
+    return max(3e-8 * (1 + loc / 10) , 1e-12, straight)
 
 
 def internal_keys(at, ks=None):
